@@ -34,6 +34,11 @@ pub struct Profile {
     pub huge_hints: bool,
     /// only targets / priorities that do not depend on the internal arrangement or iteration order
     pub abstract_only: bool,
+    /// percentage of cases drawn from the large-queue variant of this profile (50..260 elements,
+    /// longer histories dominated by single-element operations)
+    pub big_w: u32,
+    /// this instance is the large-queue variant
+    pub big: bool,
 }
 
 const BOTH: &[Kind] = &[Kind::PQ, Kind::DPQ];
@@ -111,6 +116,8 @@ pub fn profile(prop: u8, thorough: bool) -> Profile {
         try_huge: true,
         huge_hints: true,
         abstract_only: false,
+        big_w: 0,
+        big: false,
     };
     if thorough {
         p.size_w = [1, 1, 1, 1, 4, 4, 2, 1];
@@ -118,15 +125,22 @@ pub fn profile(prop: u8, thorough: bool) -> Profile {
     match prop {
         1 => {
             p.kinds = PQ_ONLY;
+            p.big_w = 15;
+            p.hashers = ALL_HASHERS;
         }
         2 => {
             p.kinds = DPQ_ONLY;
+            p.big_w = 15;
+            p.hashers = ALL_HASHERS;
         }
         3 => {
-            p.universe_w = [5, 5, 2, 0];
+            p.big_w = 8;
+            p.hashers = ALL_HASHERS;
+            p.universe_w = [5, 5, 3, 0];
             p.ops = with(p.ops, &[("get", 4), ("get_mut", 3), ("into_vec", 2), ("remove", 14), ("push", 16)]);
         }
         4 => {
+            p.big_w = 8;
             p.leaks = true;
             p.reserve_overflow = true;
             p.hashers = ALL_HASHERS;
@@ -134,12 +148,14 @@ pub fn profile(prop: u8, thorough: bool) -> Profile {
             p.ops = with(p.ops, &[("adaptor", 1), ("sorted", 2), ("serde", 2), ("deser_seq", 2), ("eq", 1), ("push", 8), ("remove", 6)]);
         }
         6 => {
+            p.big_w = 8;
             p.ops = with(p.ops, &[("sorted", 14), ("sorted_iter", 4), ("retain", 1), ("drain", 0), ("clear", 0)]);
             p.size_w = [1, 1, 1, 2, 6, 2, 0, 0];
             p.dom_w = [4, 4, 2, 1];
             p.max_ops = if thorough { 60 } else { 30 };
         }
         7 => {
+            p.big_w = 8;
             p.ops = with(
                 p.ops,
                 &[("extend", 16), ("append", 10), ("from_vec", 6), ("from_iter", 8), ("convert", 6), ("retain", 1), ("clear", 0), ("drain", 0)],
@@ -148,10 +164,12 @@ pub fn profile(prop: u8, thorough: bool) -> Profile {
             p.max_ops = if thorough { 40 } else { 16 };
         }
         8 => {
+            p.big_w = 15;
             p.ops = with(p.ops, &[("retain", 10), ("retain_mut", 12), ("iter_mut", 12), ("pop_if", 14), ("clear", 0), ("drain", 0)]);
             p.max_ops = if thorough { 80 } else { 30 };
         }
         9 => {
+            p.big_w = 5;
             p.ops = with(p.ops, &[("iter_mut", 30), ("clear", 0), ("drain", 0)]);
             p.size_w = [1, 1, 2, 2, 6, 3, 0, 0];
             p.max_ops = 14;
@@ -159,11 +177,14 @@ pub fn profile(prop: u8, thorough: bool) -> Profile {
             p.leaks = false;
         }
         11 => {
+            p.big_w = 8;
             p.ops = with(p.ops, &[("push_increase", 22), ("push_decrease", 22), ("clear", 0), ("drain", 0)]);
             p.universe_w = [4, 5, 2, 0];
             p.max_ops = if thorough { 80 } else { 40 };
         }
         12 => {
+            p.big_w = 8;
+            p.hashers = ALL_HASHERS;
             p.ops = with(
                 p.ops,
                 &[("get_mut", 8), ("peek_mut", 8), ("get", 6), ("push", 16), ("push_increase", 6), ("push_decrease", 6), ("change_priority", 10), ("iter_mut", 5), ("clear", 0)],
@@ -171,6 +192,7 @@ pub fn profile(prop: u8, thorough: bool) -> Profile {
             p.universe_w = [4, 5, 2, 0];
         }
         13 => {
+            p.big_w = 10;
             p.ops = with(
                 p.ops,
                 &[("iter", 8), ("ref_into_iter", 4), ("into_iter", 8), ("drain", 6), ("sorted_iter", 8), ("adaptor", 30), ("clear", 0)],
@@ -188,11 +210,13 @@ pub fn profile(prop: u8, thorough: bool) -> Profile {
             p.dom_w = [4, 3, 2, 2];
         }
         16 => {
+            p.big_w = 8;
             p.ops = with(p.ops, &[("drain", 10), ("clear", 8), ("pop", 10)]);
             p.leaks = true;
             p.max_ops = if thorough { 80 } else { 36 };
         }
         17 => {
+            p.big_w = 8;
             p.ops = with(p.ops, &[("reserve", 14), ("shrink_to_fit", 7), ("clear", 1)]);
             p.max_ops = if thorough { 80 } else { 40 };
         }
@@ -319,7 +343,25 @@ pub fn it_call(kind: Kind, back: bool) -> BoxedStrategy<ItCall> {
 }
 
 pub fn program(kind: Kind, back: bool, max: usize) -> BoxedStrategy<Vec<ItCall>> {
-    vec(it_call(kind, back), 0..max).boxed()
+    prop_oneof![
+        6 => vec(it_call(kind, back), 0..max),
+        // stop after a short prefix from one end (early drop)
+        2 => (1usize..5).prop_map(|k| vec![ItCall::Next; k]),
+        1 => (1usize..5).prop_map(|k| vec![ItCall::Back; k]),
+        // run to exhaustion from the front / the back / alternating, and beyond
+        1 => (0usize..3).prop_map(move |m| {
+            let mut v = Vec::new();
+            for i in 0..(max + 4) {
+                v.push(match m {
+                    0 => ItCall::Next,
+                    1 => ItCall::Back,
+                    _ => if i % 2 == 0 { ItCall::Next } else { ItCall::Back },
+                });
+            }
+            v
+        }),
+    ]
+    .boxed()
 }
 
 pub fn hint(huge: bool) -> BoxedStrategy<Hint> {
@@ -405,7 +447,7 @@ pub fn op_strategy(p: &Profile, kind: Kind, u: u32, dom: u8) -> BoxedStrategy<Op
             "drain" => (program(kind, true, plen), endhow.clone()).prop_map(|(prog, end)| Op::IterProg { which: ItKind::Drain, prog, end }).boxed(),
             "sorted_iter" => program(kind, true, plen).prop_map(|prog| Op::IterProg { which: ItKind::Sorted, prog, end: EndHow::Drop }).boxed(),
             "adaptor" => (
-                prop_oneof![Just(ItKind::Iter), Just(ItKind::RefIntoIter), Just(ItKind::IntoIter), Just(ItKind::Drain), Just(ItKind::Sorted)],
+                prop_oneof![2 => Just(ItKind::Iter), 1 => Just(ItKind::RefIntoIter), 2 => Just(ItKind::IntoIter), 2 => Just(ItKind::Drain), 3 => Just(ItKind::Sorted), 3 => Just(ItKind::IterMut)],
                 proptest::sample::select(ALL_COMPS.to_vec()),
                 any::<u8>(),
                 any::<u8>(),
@@ -417,10 +459,10 @@ pub fn op_strategy(p: &Profile, kind: Kind, u: u32, dom: u8) -> BoxedStrategy<Op
             "from_vec" => pairs(u, dom, 24).prop_map(|extra| Op::RebuildFromVec { extra }).boxed(),
             "from_iter" => (pairs(u, dom, 24), hint(p.huge_hints)).prop_map(|(extra, hint)| Op::RebuildFromIter { extra, hint }).boxed(),
             "convert" => Just(Op::ConvertRound).boxed(),
-            "serde" => (prop_oneof![Just(Carrier::JsonText), Just(Carrier::JsonValue), Just(Carrier::SeqDe)], any::<bool>())
+            "serde" => (prop_oneof![Just(Carrier::JsonText), Just(Carrier::JsonValue), Just(Carrier::SeqDe), Just(Carrier::InPlace)], any::<bool>())
                 .prop_map(|(carrier, cross)| Op::Serde { carrier, cross })
                 .boxed(),
-            "clone" => Just(Op::CloneReplace).boxed(),
+            "clone" => prop_oneof![2 => Just(Op::CloneReplace), 2 => Just(Op::Snapshot), 3 => Just(Op::RestoreFrom)].boxed(),
             "clear" => Just(Op::Clear).boxed(),
             "reserve" => {
                 let kinds = prop_oneof![Just(ResKind::Reserve), Just(ResKind::ReserveExact), Just(ResKind::TryReserve), Just(ResKind::TryReserveExact)];
@@ -454,7 +496,7 @@ pub fn op_strategy(p: &Profile, kind: Kind, u: u32, dom: u8) -> BoxedStrategy<Op
                     vec((0..u.min(6).max(1), any::<u32>(), prio_val(dom)), 0..40),
                     vec((0..u.max(1), any::<u32>(), prio_val(dom)), 0..40),
                 ],
-                prop_oneof![Just(Carrier::JsonText), Just(Carrier::JsonValue), Just(Carrier::SeqDe)],
+                prop_oneof![Just(Carrier::JsonText), Just(Carrier::JsonValue), Just(Carrier::SeqDe), Just(Carrier::InPlace)],
                 any::<bool>(),
             )
                 .prop_map(|(pairs, carrier, cross)| Op::DeserSeq { pairs, carrier, cross })
@@ -466,7 +508,13 @@ pub fn op_strategy(p: &Profile, kind: Kind, u: u32, dom: u8) -> BoxedStrategy<Op
     Union::new_weighted(v).boxed()
 }
 
-pub const ALL_COMPS: [Comp; 23] = [
+pub const ALL_COMPS: [Comp; 29] = [
+    Comp::NthThenNthBack,
+    Comp::NextsThenNthBack,
+    Comp::BacksThenNth,
+    Comp::SkipStepBy,
+    Comp::RevSkip,
+    Comp::RevStepBy,
     Comp::Take,
     Comp::Skip,
     Comp::StepBy,
@@ -494,7 +542,7 @@ pub const ALL_COMPS: [Comp; 23] = [
 
 pub fn ctor_strategy(p: &Profile, u: u32, dom: u8) -> BoxedStrategy<Ctor> {
     // (weight, lo, hi) size classes; the vector itself shrinks towards `lo` elements
-    let classes: Vec<(u32, usize, usize)> = vec![
+    let classes: Vec<(u32, usize, usize)> = if p.big { vec![(2, 50, 130), (1, 64, 260)] } else { vec![
         (p.size_w[0], 0, 0),
         (p.size_w[1], 0, 1),
         (p.size_w[2], 1, 2),
@@ -503,7 +551,7 @@ pub fn ctor_strategy(p: &Profile, u: u32, dom: u8) -> BoxedStrategy<Ctor> {
         (p.size_w[5], 4, 64),
         (p.size_w[6], 8, 200),
         (p.size_w[7], 16, p.max_big.max(202)),
-    ]
+    ] }
     .into_iter()
     .filter(|c| c.0 > 0)
     .collect();
@@ -538,6 +586,20 @@ thread_local! {
 }
 
 pub fn case_strategy(p: &Profile) -> BoxedStrategy<Case> {
+    if p.big_w > 0 && !p.big {
+        let mut b = p.clone();
+        b.big = true;
+        b.max_ops = (p.max_ops * 3).min(if p.max_ops > 100 { 500 } else { 200 });
+        b.ops = b
+            .ops
+            .into_iter()
+            .map(|(n, w)| (n, if matches!(n, "push" | "pop" | "change_priority" | "remove") && w > 0 { w * 3 } else { w }))
+            .collect();
+        b.universe_w = [0, 0, 1, 2];
+        let mut n = p.clone();
+        n.big_w = 0;
+        return prop_oneof![(100 - p.big_w) => case_strategy(&n), p.big_w => case_strategy(&b)].boxed();
+    }
     let p = p.clone();
     let abstract_only = p.abstract_only;
     let kinds = proptest::sample::select(p.kinds.to_vec());
